@@ -649,12 +649,23 @@ def main(argv):
     if len(argv) >= 1 and argv[0] == '--build-all':
         tiers = argv[1:] or ['quick']
         hs = []
+        try:
+            claimed = set(c['property_id'] for c in json.load(open(os.path.join(VERIF, 'MANIFEST.json')))['checks'])
+        except Exception:  # noqa
+            claimed = set(props.PROPS)
         for p in props.PROPS.values():
+            if p.pid not in claimed:
+                continue
             for h in p.harnesses:
                 for t in tiers:
                     if t in h.tiers and h.for_tier(t) not in hs:
                         hs.append(h.for_tier(t))
-        return 0 if build_harnesses(hs) else 2
+        if build_harnesses(hs):
+            return 0
+        ok = True
+        for h in hs:  # one by one, so that one broken harness does not prevent the others from being built
+            ok = build_harnesses([h]) and ok
+        return 0 if ok else 2
     if len(argv) < 1:
         print(__doc__)
         return 2
